@@ -965,6 +965,13 @@ def explain_trials(p, blk, dT, T):
                 "%s block reports %d trials although its own min_trials (MinimumTrials rounded up to the sustain counts %r) is %d "
                 "and the documented count is %d: trials_per_sample() was cached during validation of %s before min_trials was "
                 "rounded" % (kind, T, sus, blk.min_trials, dT, "/".join(early)))
+    import causes
+    cause = "crossed-derived-reads-derived" if causes.crossed_derived_reads_derived(p) and T > dT else None
+    if cause:
+        # a crossed within-trial derived factor that reads another derived factor: combinations that are
+        # impossible only through the chain are not recognised (root cause of open findings of C02/C08/C09),
+        # so the code's crossing size exceeds the documented one
+        kind = "cause=" + cause
     return ("trials:differs:%s" % kind,
             "%s block reports trials_per_sample() = %d, the documented arithmetic gives %d (crossing sizes %r, preambles %r, "
             "sustain %r, weights %r, min_trials %r)" % (kind, T, dT, list(blk.crossing_sizes), list(blk.preamble_sizes), sus,
